@@ -3,6 +3,7 @@ package c15
 import (
 	"bytes"
 	"context"
+	"encoding/json"
 	"fmt"
 	"github.com/LiskHQ/lisk-engine/pkg/consensus/certificate"
 	"os"
@@ -71,6 +72,7 @@ type world struct {
 	aggAcross      int               // forged blocks with a non-empty aggregate commit while a parameter change was finalized but uncertified
 	lastAccepted   *blockchain.Block // latest forged block that reached consensus (was published)
 	accepted       []*blockchain.Block
+	keysFile       string // path of the generator keys file when the world uses generator.keys.fromFile
 	gStar          []byte // the validator owning the current wall-clock slot: the only one the real generator forges for
 }
 
@@ -131,6 +133,28 @@ func newWorld(t *rapid.T) *world {
 		t.Fatalf("slot owner: %v", err)
 	}
 	w.gStar = g.Addr
+	// Half of the worlds configure the forging validator's keys through `generator.keys.fromFile`, as an operator does: Init imports the
+	// file on EVERY start of the node, also over a generator database that already holds the validator's generated heights (added after
+	// seeded change C15-r: the import reset the persisted record, so the first header after a restart contradicted the earlier ones).
+	if rapid.Bool().Draw(t, "keysFromFile") {
+		k := node.KeyByAddr(w.gStar)
+		// (an item without an `encrypted` part makes Init dereference nil - observation O10 in DESIGN.md, outside C15; so an empty one is given)
+		kf := &generator.KeysFile{Keys: []*generator.KeysFileItem{{Address: k.Addr, Encrypted: &crypto.EncryptedMessage{}, Plain: &generator.PlainKeys{GeneratorKey: k.EdPub, GeneratorPrivateKey: k.EdPriv, BLSKey: k.BLSPub, BLSPrivateKey: k.BLSPriv}}}}
+		raw, err := json.Marshal(kf)
+		if err != nil {
+			t.Fatalf("keys file: %v", err)
+		}
+		f, err := os.CreateTemp("", "c15-keys-*.json")
+		if err != nil {
+			t.Fatalf("keys file: %v", err)
+		}
+		f.Write(raw)
+		f.Close()
+		w.keysFile = f.Name()
+		w.cfg.Generator.Keys.FromFile = w.keysFile
+		w.hist = append(w.hist, "forging keys configured through generator.keys.fromFile")
+		evid.R.Label("world-keys-from-file", 1)
+	}
 	w.newGenerator()
 	return w
 }
@@ -139,6 +163,9 @@ func (w *world) close() {
 	w.n.Close()
 	w.genDB.Close()
 	node.ClearOutcomeOverrides()
+	if w.keysFile != "" {
+		os.Remove(w.keysFile)
+	}
 }
 
 // del removes the tip through the engine and delivers the delete event to the generator, as its event loop would (the loop
